@@ -191,10 +191,7 @@ Theorem coordinate_mode :
     field_coordinate false (Some v) f = (match typename_of v with Some t => t | None => fi_parent f end, fi_name f) /\
     (forall t, typename_of v = Some t -> t <> fi_parent f ->
                field_coordinate false (Some v) f <> field_coordinate true (Some v) f).
-Proof.
-  exact (fun v f => conj (coordinate_mode_prefetch (Some v) f)
-                         (conj (coordinate_mode_postfetch v f) (coordinate_mode_differ v f))).
-Qed.
+Proof. exact coordinate_mode_lemma. Qed.
 Print Assumptions coordinate_mode.
 Example c14_mode_example :
   let f := {| fi_parent := [73]; fi_name := [102]; fi_rule := true; fi_sources := [[65]] |} in
